@@ -497,10 +497,18 @@ func c14Tags(r *run.Run) {
 func c14Post(r *run.Run) {
 	std := append([]string(nil), postStandardNames()...)
 	alphabet := []string{".notdef", "A", "custom", "", strings.Repeat("n", 255), "space"}
-	r.Explore(explore.Config{Name: "C14.post-names"}, "glyph-name lists: all lists of length <= 4 over {.notdef, A, custom, empty, 255-byte, space}; the standard Macintosh order, its prefixes, 259 and 1000 names; post.Read(Encode(x)).Names == x.Names and an independent parser sees the same names",
+	r.Explore(explore.Config{Name: "C14.post-names"}, "glyph-name lists: all lists of length <= 4 over {.notdef, A, custom, empty, 255-byte, space}; the standard Macintosh order, its prefixes, 259 and 1000 names, and custom-name counts around the name index 32767 and up to the largest index 65535; post.Read(Encode(x)).Names == x.Names and an independent parser sees the same names",
 		func(c *explore.Ctx) {
 			var names []string
-			switch k := c.Choose(6, "family"); k {
+			switch k := c.Choose(7, "family"); k {
+			case 6:
+				// name indices beyond 32767 and up to the last one (258 + 65277 = 65535); duplicates of
+				// standard names among them use the standard index
+				n := explore.Pick(c, "custom names", 32509, 32510, 32511, 40000, 65277, 65278)
+				for i := 0; i < n; i++ {
+					names = append(names, fmt.Sprintf("g%05d", i))
+				}
+				names[0] = ".notdef"
 			case 0:
 				n := c.Choose(5, "length")
 				names = []string{}
